@@ -438,6 +438,10 @@ Definition get_node (n : nid) : M node :=
   s <- get ;; match nodes s !! n with Some x => ret x | None => panic (PModelGap 1) end.
 Definition upd_node (n : nid) (f : node -> node) : M unit :=
   modify (fun s => s <| nodes := alter f n (nodes s) |>).
+(* writes that record the current stabilisation number (`state.stabilisation_num.get()` at the moment of
+   the write) *)
+Definition stamp_node (n : nid) (f : Z -> node -> node) : M unit :=
+  modify (fun s => s <| nodes := alter (f (stab_num s)) n (nodes s) |>).
 Definition get_bind (b : bid) : M bind :=
   s <- get ;; match binds s !! b with Some x => ret x | None => panic (PModelGap 2) end.
 Definition upd_bind (b : bid) (f : bind -> bind) : M unit :=
@@ -446,6 +450,8 @@ Definition get_var (x : vid) : M var :=
   s <- get ;; match vars s !! x with Some v => ret v | None => panic (PModelGap 3) end.
 Definition upd_var (x : vid) (f : var -> var) : M unit :=
   modify (fun s => s <| vars := alter f x (vars s) |>).
+Definition stamp_var (x : vid) (f : Z -> var -> var) : M unit :=
+  modify (fun s => s <| vars := alter (f (stab_num s)) x (vars s) |>).
 Definition get_expert (x : nat) : M expert :=
   s <- get ;; match experts s !! x with Some v => ret v | None => panic (PModelGap 5) end.
 Definition upd_expert (x : nat) (f : expert -> expert) : M unit :=
